@@ -33,7 +33,7 @@ def observe (q : Seq) : String :=
   let idxs := (List.range 251).filterMap (fun i => (q.txs.find? (·.1 == i)).map (·.2))
   let recs := idxs.filterMap (fun t => (getRec q.node.db.recs t).map (fun f => s!"{t.nonce}:{f}"))
   let heap := idxs.filterMap (fun t => if t ∈ q.node.heap then some (toString t.nonce) else none)
-  s!" p={q.node.db.pending 0},{q.node.db.pending 1} rec={joinOr recs} heap={joinOr heap}"
+  s!" p={q.node.db.pending 0},{q.node.db.pending 1} rec={joinOr recs} heap={joinOr heap} dw=0"
 
 def step (st : Option Seq) (ws : List String) : Option Seq × String :=
   match ws, st with
